@@ -674,10 +674,16 @@ def region_dict_digest(d):
     def num(k):
         return impl.hexf(d[k]) if k in d else "missing-" + k
     rid = impl.hexs(d["id"]) if "id" in d else "missing-id"
+
+    def extra(keys):
+        # a serialised region has exactly its defining properties
+        more = sorted(str(k) for k in d if k not in keys)
+        return (":extra-" + ",".join(more)) if more else ""
     if d.get("type") == "RectangularRegion":
-        return "R:%s:%s:%s:%s:%s" % (rid, num("x1"), num("y1"), num("x2"), num("y2"))
+        return "R:%s:%s:%s:%s:%s" % (rid, num("x1"), num("y1"), num("x2"), num("y2")) + \
+            extra(("type", "id", "x1", "y1", "x2", "y2"))
     if d.get("type") == "CircularRegion":
-        return "C:%s:%s:%s:%s" % (rid, num("cx"), num("cy"), num("r"))
+        return "C:%s:%s:%s:%s" % (rid, num("cx"), num("cy"), num("r")) + extra(("type", "id", "cx", "cy", "r"))
     return "?:%r" % (d,)
 
 
